@@ -337,6 +337,15 @@ class DataLoader(object):
         else:
             logger = self.logger
 
+        # Message types may be listed by their integer values too (plain or numpy integers, e.g. a numpy array of types).
+        # Convert those to MessageType: the reader and its index take a list of integers to be positions in the index, so
+        # such a call failed unless the cache happened to hold all of the requested types.
+        if (message_types is not None and not isinstance(message_types, MessageType) and
+                not MessagePayload.is_subclass(message_types)):
+            message_types = [MessageType(int(t), raise_on_unrecognized=False)
+                             if isinstance(t, (int, np.integer)) and not isinstance(t, MessageType) else t
+                             for t in message_types]
+
         # Parse the time range params.
         if time_range is None:
             time_range = TimeRange()
